@@ -7,6 +7,15 @@ fields, the Terminator, the configuration).
 namespace WV.Proofs.C17
 open WV WV.Gen WV.C17
 
+/-- a fired-but-not-cleared timer handle exists only in a tree whose expiry callback does not clear it -/
+def TimerOk (w : World) : Prop := w.timer = .fired → Flags.timer_expiry_clears_handle = false
+
+/-- the three users of the handle are safe in the working tree: each either can never meet a fired handle
+    (the expiry callback clears it) or asks `.active()` first.  Decided on the generated flags. -/
+theorem abandonSafe : (Flags.timer_expiry_clears_handle || Flags.abandon_checks_active) = true := by decide
+theorem stopUsingSafe : (Flags.timer_expiry_clears_handle || Flags.stop_using_checks_active) = true := by decide
+theorem pingSafe : (Flags.timer_expiry_clears_handle || Flags.ping_timer_checks_active) = true := by decide
+
 structure KeepD (w w' : World) : Prop where
   hasMgr : w'.hasMgr = w.hasMgr
   key : w'.key = w.key
@@ -21,16 +30,17 @@ structure KeepD (w w' : World) : Prop where
   asyncListen : w'.asyncListen = w.asyncListen
   waiters : w'.waiters = w.waiters
   mainMono : w.main = .failed → w'.main = .failed
+  timerOk : TimerOk w → TimerOk w'
 
-macro "keep_rfl" : tactic => `(tactic| exact ⟨rfl, rfl, rfl, rfl, rfl, rfl, rfl, rfl, rfl, rfl, rfl, rfl, fun h => h⟩)
+macro "keep_rfl" : tactic => `(tactic| exact ⟨rfl, rfl, rfl, rfl, rfl, rfl, rfl, rfl, rfl, rfl, rfl, rfl, fun h => h, fun h => h⟩)
 
-theorem KeepD.refl (w : World) : KeepD w w := ⟨rfl, rfl, rfl, rfl, rfl, rfl, rfl, rfl, rfl, rfl, rfl, rfl, fun h => h⟩
+theorem KeepD.refl (w : World) : KeepD w w := ⟨rfl, rfl, rfl, rfl, rfl, rfl, rfl, rfl, rfl, rfl, rfl, rfl, fun h => h, fun h => h⟩
 
 theorem KeepD.trans {a b c : World} (h1 : KeepD a b) (h2 : KeepD b c) : KeepD a c :=
   ⟨h2.hasMgr.trans h1.hasMgr, h2.key.trans h1.key, h2.mySide.trans h1.mySide, h2.pKey.trans h1.pKey,
    h2.pVers.trans h1.pVers, h2.pMsgs.trans h1.pMsgs, h2.called.trans h1.called, h2.ts.trans h1.ts,
    h2.closed.trans h1.closed, h2.noListen.trans h1.noListen, h2.asyncListen.trans h1.asyncListen,
-   h2.waiters.trans h1.waiters, fun h => h2.mainMono (h1.mainMono h)⟩
+   h2.waiters.trans h1.waiters, fun h => h2.mainMono (h1.mainMono h), fun h => h2.timerOk (h1.timerOk h)⟩
 
 theorem resolveWaiter_same (id : Nat) (ok : Bool) (w : World) :
     ∃ ws rg, resolveWaiter id ok w = { w with waiters := ws, registered := rg } := by
@@ -66,8 +76,8 @@ theorem keep_dcpSelect (c : Nat) (w : World) : KeepD w (dcpSelect c w).1 := by
     · exact KeepD.refl _
     · dsimp only
       split
-      · split <;> exact ⟨rfl, rfl, rfl, rfl, rfl, rfl, rfl, rfl, rfl, rfl, rfl, rfl, fun h => h⟩
-      · exact ⟨rfl, rfl, rfl, rfl, rfl, rfl, rfl, rfl, rfl, rfl, rfl, rfl, fun h => h⟩
+      · split <;> exact ⟨rfl, rfl, rfl, rfl, rfl, rfl, rfl, rfl, rfl, rfl, rfl, rfl, fun h => h, fun h => h⟩
+      · exact ⟨rfl, rfl, rfl, rfl, rfl, rfl, rfl, rfl, rfl, rfl, rfl, rfl, fun h => h, fun h => h⟩
 
 theorem keep_stopListeners (g : Nat) (w : World) : KeepD w (stopListeners g w) := by keep_rfl
 theorem keep_stopPendingConnectors (g : Nat) (w : World) : KeepD w (stopPendingConnectors g w) := by keep_rfl
@@ -77,8 +87,8 @@ theorem keep_breakCycles (g : Nat) (w : World) : KeepD w (breakCycles g w) := by
 theorem keep_cOut (made : Nat → World → Res) (hm : ∀ c v, KeepD v (made c v).1) (g a : Nat) (o : Connector.Output)
     (w : World) : KeepD w (cOut made g a o w).1 := by
   cases o
-  · exact ⟨rfl, rfl, rfl, rfl, rfl, rfl, rfl, rfl, rfl, rfl, rfl, rfl, fun h => h⟩
-  · exact ⟨rfl, rfl, rfl, rfl, rfl, rfl, rfl, rfl, rfl, rfl, rfl, rfl, fun h => h⟩
+  · exact ⟨rfl, rfl, rfl, rfl, rfl, rfl, rfl, rfl, rfl, rfl, rfl, rfl, fun h => h, fun h => h⟩
+  · exact ⟨rfl, rfl, rfl, rfl, rfl, rfl, rfl, rfl, rfl, rfl, rfl, rfl, fun h => h, fun h => h⟩
   · simp only [cOut]
     refine keep_andThen (KeepD.trans ?_ (keep_dcpSelect _ _)) (hm a)
     refine KeepD.trans ?_ (keep_stopPendingConnections _ _)
@@ -90,7 +100,7 @@ theorem keep_cOut (made : Nat → World → Res) (hm : ∀ c v, KeepD v (made c 
     refine KeepD.trans ?_ (keep_stopPendingConnections _ _)
     refine KeepD.trans ?_ (keep_stopPendingConnectors _ _)
     exact keep_stopListeners _ _
-  · exact ⟨rfl, rfl, rfl, rfl, rfl, rfl, rfl, rfl, rfl, rfl, rfl, rfl, fun h => h⟩
+  · exact ⟨rfl, rfl, rfl, rfl, rfl, rfl, rfl, rfl, rfl, rfl, rfl, rfl, fun h => h, fun h => h⟩
 
 theorem keep_cOuts (made : Nat → World → Res) (hm : ∀ c v, KeepD v (made c v).1) (g a : Nat)
     (os : List Connector.Output) (w : World) : KeepD w (cOuts made g a os w).1 := by
@@ -114,7 +124,7 @@ theorem keep_logged {w : World} {r : Res} (h : KeepD w r.1) : KeepD w (logged r)
   obtain ⟨v, e⟩ := r
   cases e
   · exact h
-  · exact h.trans ⟨rfl, rfl, rfl, rfl, rfl, rfl, rfl, rfl, rfl, rfl, rfl, rfl, fun h => h⟩
+  · exact h.trans ⟨rfl, rfl, rfl, rfl, rfl, rfl, rfl, rfl, rfl, rfl, rfl, rfl, fun h => h, fun h => h⟩
 
 theorem keep_connectorStart (g : Nat) (w : World) : KeepD w (connectorStart g w) := by
   unfold connectorStart
@@ -124,7 +134,7 @@ theorem keep_connectorStart (g : Nat) (w : World) : KeepD w (connectorStart g w)
     split
     · refine KeepD.trans ?_ (keep_logged (keep_cInput noMade keep_noMade _ _ _ _))
       keep_rfl
-    · exact ⟨rfl, rfl, rfl, rfl, rfl, rfl, rfl, rfl, rfl, rfl, rfl, rfl, fun h => h⟩
+    · exact ⟨rfl, rfl, rfl, rfl, rfl, rfl, rfl, rfl, rfl, rfl, rfl, rfl, fun h => h, fun h => h⟩
 
 theorem keep_startConnecting (w : World) : KeepD w (startConnecting w).1 := by
   unfold startConnecting
@@ -135,24 +145,109 @@ theorem keep_startConnecting (w : World) : KeepD w (startConnecting w).1 := by
     · refine KeepD.trans ?_ (keep_connectorStart _ _)
       keep_rfl
 
+theorem cancelTimer_same (b : Bool) (w : World) : ∃ t, (cancelTimer b w).1 = { w with timer := t } := by
+  unfold cancelTimer
+  split
+  · split
+    · exact ⟨_, rfl⟩
+    · exact ⟨w.timer, rfl⟩
+  · exact ⟨_, rfl⟩
+
+theorem beginTiming_same (w : World) : ∃ t, (beginTiming w).1 = { w with timer := t } := by
+  unfold beginTiming
+  split
+  · exact ⟨_, rfl⟩
+  · split
+    · exact ⟨w.timer, rfl⟩
+    · exact ⟨_, rfl⟩
+
+theorem startPingTimer_same (w : World) : ∃ t tt, (startPingTimer w).1 = { w with timer := t, tt := tt } := by
+  unfold startPingTimer
+  split
+  · obtain ⟨t, e⟩ := beginTiming_same { w with tt := some .connected }
+    exact ⟨t, _, e⟩
+  · exact ⟨w.timer, w.tt, rfl⟩
+
+/-- with a handle that is never left fired (or a user that asks `.active()` first) cancelling never raises -/
+theorem cancelTimer_ok (b : Bool) (w : World) (hs : (Flags.timer_expiry_clears_handle || b) = true) (ht : TimerOk w) :
+    cancelTimer b w = ({ w with timer := .none }, none) := by
+  unfold cancelTimer
+  split
+  · rename_i hf
+    have := ht hf
+    simp [this] at hs
+    simp [hs]
+  · rfl
+
+theorem beginTiming_ok (w : World) (hs : (Flags.timer_expiry_clears_handle || Flags.ping_timer_checks_active) = true)
+    (ht : TimerOk w) : beginTiming w = ({ w with timer := .pending }, none) := by
+  unfold beginTiming
+  split
+  · rfl
+  · rename_i hn
+    split
+    · rename_i hf
+      have := ht hf
+      simp [this] at hs
+      exact absurd hs hn
+    · rfl
+
+theorem startPingTimer_ok (w : World) (ht : TimerOk w) : (startPingTimer w).2 = none := by
+  unfold startPingTimer
+  split
+  · rw [beginTiming_ok _ pingSafe (by exact ht)]
+  · rfl
+
+/-- `abandon_connection` with a connection: the timer is cancelled, the connection told to close -/
+theorem abandon_eval (s : String) (n : Nat) (w : World) (ht : TimerOk w) (c : Nat) (hc : w.conn = some c) :
+    mOut s n .abandon_connection w = (disconnect c { w with timer := .none }, none) := by
+  simp only [mOut]
+  rw [cancelTimer_ok _ _ abandonSafe ht]
+  simp [andThen, hc]
+
+theorem keep_cancelTimer (b : Bool) (w : World) : KeepD w (cancelTimer b w).1 := by
+  unfold cancelTimer
+  split
+  · split
+    · exact ⟨rfl, rfl, rfl, rfl, rfl, rfl, rfl, rfl, rfl, rfl, rfl, rfl, fun h => h, fun _ h => by cases h⟩
+    · exact KeepD.refl _
+  · exact ⟨rfl, rfl, rfl, rfl, rfl, rfl, rfl, rfl, rfl, rfl, rfl, rfl, fun h => h, fun _ h => by cases h⟩
+
+theorem keep_beginTiming (w : World) : KeepD w (beginTiming w).1 := by
+  unfold beginTiming
+  split
+  · exact ⟨rfl, rfl, rfl, rfl, rfl, rfl, rfl, rfl, rfl, rfl, rfl, rfl, fun h => h, fun _ h => by cases h⟩
+  · split
+    · exact KeepD.refl _
+    · exact ⟨rfl, rfl, rfl, rfl, rfl, rfl, rfl, rfl, rfl, rfl, rfl, rfl, fun h => h, fun _ h => by cases h⟩
+
+theorem keep_startPingTimer (w : World) : KeepD w (startPingTimer w).1 := by
+  unfold startPingTimer
+  split
+  · refine KeepD.trans ?_ (keep_beginTiming _)
+    keep_rfl
+  · exact KeepD.refl _
+
 theorem keep_mOut (s : String) (n : Nat) (o : Manager.Output) (w : World) : KeepD w (mOut s n o w).1 := by
   cases o <;> simp only [mOut]
   · -- abandon_connection
-    split <;> exact ⟨rfl, rfl, rfl, rfl, rfl, rfl, rfl, rfl, rfl, rfl, rfl, rfl, fun h => h⟩
+    refine keep_andThen (keep_cancelTimer _ _) ?_
+    intro v
+    split <;> exact ⟨rfl, rfl, rfl, rfl, rfl, rfl, rfl, rfl, rfl, rfl, rfl, rfl, fun h => h, fun h => h⟩
   · -- choose_role
     split
-    · exact ⟨rfl, rfl, rfl, rfl, rfl, rfl, rfl, rfl, rfl, rfl, rfl, rfl, fun h => h⟩
+    · exact ⟨rfl, rfl, rfl, rfl, rfl, rfl, rfl, rfl, rfl, rfl, rfl, rfl, fun h => h, fun h => h⟩
     · split
-      · exact ⟨rfl, rfl, rfl, rfl, rfl, rfl, rfl, rfl, rfl, rfl, rfl, rfl, fun h => h⟩
+      · exact ⟨rfl, rfl, rfl, rfl, rfl, rfl, rfl, rfl, rfl, rfl, rfl, rfl, fun h => h, fun h => h⟩
       · exact KeepD.refl _
   · -- notify_stopped
     unfold notifyStopped
     split
     · exact KeepD.refl _
-    · exact ⟨rfl, rfl, rfl, rfl, rfl, rfl, rfl, rfl, rfl, rfl, rfl, rfl, fun h => h⟩
-  · exact ⟨rfl, rfl, rfl, rfl, rfl, rfl, rfl, rfl, rfl, rfl, rfl, rfl, fun h => h⟩
-  · exact ⟨rfl, rfl, rfl, rfl, rfl, rfl, rfl, rfl, rfl, rfl, rfl, rfl, fun h => h⟩
-  · exact ⟨rfl, rfl, rfl, rfl, rfl, rfl, rfl, rfl, rfl, rfl, rfl, rfl, fun h => h⟩
+    · exact ⟨rfl, rfl, rfl, rfl, rfl, rfl, rfl, rfl, rfl, rfl, rfl, rfl, fun h => h, fun h => h⟩
+  · exact ⟨rfl, rfl, rfl, rfl, rfl, rfl, rfl, rfl, rfl, rfl, rfl, rfl, fun h => h, fun h => h⟩
+  · exact ⟨rfl, rfl, rfl, rfl, rfl, rfl, rfl, rfl, rfl, rfl, rfl, rfl, fun h => h, fun h => h⟩
+  · exact ⟨rfl, rfl, rfl, rfl, rfl, rfl, rfl, rfl, rfl, rfl, rfl, rfl, fun h => h, fun h => h⟩
   · exact KeepD.refl _
   · exact KeepD.refl _
   · exact KeepD.refl _
@@ -186,15 +281,13 @@ theorem keep_mainFire (w : World) : KeepD w (mainFire w).1 := by
   · exact KeepD.refl _
   · rename_i hn
     have hn' : w.main = .noResult := by simpa using hn
-    exact ⟨rfl, rfl, rfl, rfl, rfl, rfl, rfl, rfl, rfl, rfl, rfl, rfl, fun h => by rw [hn'] at h; cases h⟩
+    exact ⟨rfl, rfl, rfl, rfl, rfl, rfl, rfl, rfl, rfl, rfl, rfl, rfl, (fun h => by rw [hn'] at h; cases h), fun h => h⟩
 
 theorem keep_connectionMade (c : Nat) (w : World) : KeepD w (connectionMade c w).1 := by
   unfold connectionMade
-  refine keep_andThen (KeepD.trans ?_ (keep_mInput _ _ _ _)) ?_
-  · unfold startPingTimer
-    split
-    · keep_rfl
-    · exact KeepD.refl _
+  refine keep_andThen (keep_startPingTimer w) ?_
+  intro u
+  refine keep_andThen (keep_mInput _ _ _ _) ?_
   · intro v
     unfold useConnection
     dsimp only
@@ -206,12 +299,15 @@ theorem keep_connectionMade (c : Nat) (w : World) : KeepD w (connectionMade c w)
 theorem keep_connectionLost (w : World) : KeepD w (connectionLost w).1 := by
   unfold connectionLost
   dsimp only
-  split
-  · exact ⟨rfl, rfl, rfl, rfl, rfl, rfl, rfl, rfl, rfl, rfl, rfl, rfl, fun h => h⟩
-  · split
-    · refine KeepD.trans ?_ (keep_mInput _ _ _ _)
-      keep_rfl
-    · refine KeepD.trans ?_ (keep_mInput _ _ _ _)
-      keep_rfl
+  refine keep_andThen (KeepD.trans ?_ (keep_cancelTimer _ _)) ?_
+  · keep_rfl
+  · intro v
+    split
+    · keep_rfl
+    · split
+      · refine KeepD.trans ?_ (keep_mInput _ _ _ _)
+        keep_rfl
+      · refine KeepD.trans ?_ (keep_mInput _ _ _ _)
+        keep_rfl
 
 end WV.Proofs.C17
